@@ -867,4 +867,13 @@ theorem tie_loadFreshDeadline :
     loadTimeoutLoopDepth = ["1"] ∧ loadCancelLoopDepth = ["1"] ∧ loadGetLoopDepth = ["1", "1"]
     ∧ loadTimeoutArgs = ["cli.Ctx() | RequestTimeout"] := by decide
 
+/-- the delivery loops range over a fresh COPY of the listener list, taken under the lock at the start of the
+response — never over the watcher's / container's own slice, which Unmonitor / addListener change in place:
+`calledForEvent true`, theorem `close_during_delivery_leaves_the_others_notified_once` (an alias is `calledForEvent false`:
+its witness). -/
+theorem tie_deliveryListenersAreCopies :
+    handleWatchEventsListeners = ["copy of watcher.listeners", "range listeners", "range listeners"]
+    ∧ handleChangesListeners = ["copy of watcher.listeners", "range listeners", "range listeners"]
+    ∧ notifyChangeListeners = ["copy of c.listeners", "range listeners"] := by decide
+
 end GoZero.C13.Tie
